@@ -10,6 +10,7 @@ import LdkModel.Proofs.Bolt11Bounds
 import LdkModel.Proofs.Bits
 import LdkModel.Proofs.OfferMeta
 import LdkModel.Model.OfferMirror
+import LdkModel.Proofs.OfferMirror
 namespace Ldk.C18
 open Ldk.Prim.Bech32
 
@@ -786,6 +787,103 @@ theorem invoice_mirrors_request (src : List UInt8) (rs : List Rec) (o : Own) (ou
 /-- non-vacuity: an offer with a known record (10), an unknown odd record (77) and an experimental one -/
 example : build invreqPlan [10, 1, 65, 77, 2, 1, 2, 0xfe, 0x3b, 0x9a, 0xca, 0x01, 1, 9] ⟨[0, 1, 5], [88, 1, 3], [], [240, 1, 7]⟩
     = some [0, 1, 5, 10, 1, 65, 77, 2, 1, 2, 88, 1, 3, 240, 1, 7, 0xfe, 0x3b, 0x9a, 0xca, 0x01, 1, 9] := by decide
+
+/-! ### Remote signing: an unsigned message re-parsed from its bytes and then signed
+    `TryFrom<Vec<u8>> for UnsignedInvoiceRequest / UnsignedBolt12Invoice` cut the received bytes into
+    `bytes` / `experimental_bytes` after the last record of a RANGE; `sign()` writes
+    `bytes ‖ signature(240) ‖ experimental_bytes`.  `invreqSplitIn` / `invoiceSplitIn` are those ranges,
+    translated from the two impls on every run (gen_c18_mirror.py); the sign step and the fact that the
+    tagged hash is taken over the whole bytes BEFORE the cut are pinned by the same translator. -/
+
+/-- the split range of the re-parsed unsigned INVOICE REQUEST holds exactly for the record types that
+    must precede the signature, on every type an invoice request can carry (payer 0, offer 1..80,
+    invoice request 80..160 — payer note 89 and offer_from_hrn 91 included —, experimental ≥ 10⁹) -/
+theorem invreq_split_range_is_below_signature (t : Nat)
+    (ht : t < INVOICE_REQUEST_TYPES_HI ∨ EXPERIMENTAL_OFFER_TYPES_LO ≤ t) :
+    invreqSplitIn t = true ↔ t < Ldk.Merkle.sigTypesLo := by
+  simp only [invreqSplitIn, INVOICE_REQUEST_TYPES_HI, EXPERIMENTAL_OFFER_TYPES_LO, Ldk.Merkle.sigTypesLo,
+    Bool.and_eq_true, decide_eq_true_eq] at *
+  omega
+
+/-- the same for the re-parsed unsigned INVOICE (adds the invoice records 160..240) -/
+theorem invoice_split_range_is_below_signature (t : Nat)
+    (ht : t < INVOICE_TYPES_HI ∨ EXPERIMENTAL_OFFER_TYPES_LO ≤ t) :
+    invoiceSplitIn t = true ↔ t < Ldk.Merkle.sigTypesLo := by
+  simp only [invoiceSplitIn, INVOICE_TYPES_HI, EXPERIMENTAL_OFFER_TYPES_LO, Ldk.Merkle.sigTypesLo,
+    Bool.and_eq_true, decide_eq_true_eq] at *
+  omega
+
+example : invreqSplitIn 89 = true ∧ invreqSplitIn 91 = true ∧ invreqSplitIn 159 = true ∧ invreqSplitIn 2000000001 = false := by decide
+
+/-- sign(reparse(unsigned invoice request bytes)), for EVERY record set: whatever ascending stream of
+    invoice-request records `b` is (any subset of chain, amount, features, quantity, payer id, payer note,
+    hrn, unknown odd records, experimental offer / request records), the signed bytes are the
+    concatenation of a STRICTLY ASCENDING record list `A ++ sig :: B` with `A ++ B` = the unsigned
+    records, and dropping the signature record gives back exactly the unsigned records. -/
+theorem reparsed_invreq_signs_to_ascending_stream (b : List UInt8) (rs : List Rec) (sr : Rec)
+    (hparse : parseStream b = some rs) (hasc : rs.Pairwise (fun a b => a.ty < b.ty))
+    (hty : ∀ r ∈ rs, r.ty < INVOICE_REQUEST_TYPES_HI ∨ EXPERIMENTAL_OFFER_TYPES_LO ≤ r.ty)
+    (hsig : Ldk.Merkle.isSig sr = true) :
+    ∃ A B, rs = A ++ B ∧
+      signReparsed invreqSplitIn b sr.recordBytes = some (recsBytes (A ++ sr :: B)) ∧
+      (A ++ sr :: B).Pairwise (fun a b => a.ty < b.ty) ∧
+      Ldk.Merkle.nonSig (A ++ sr :: B) = rs := by
+  refine signReparsed_general invreqSplitIn b rs sr hparse hasc
+    (fun r hr => invreq_split_range_is_below_signature r.ty (hty r hr)) (fun r hr => ?_) hsig
+  have h := hty r hr
+  simp only [INVOICE_REQUEST_TYPES_HI, EXPERIMENTAL_OFFER_TYPES_LO] at h
+  rcases h with h | h
+  · have h' : ¬ (Ldk.Merkle.sigTypesLo ≤ r.ty) := by simp only [Ldk.Merkle.sigTypesLo]; omega
+    simp [Ldk.Merkle.isSig, h']
+  · have h' : ¬ (r.ty ≤ Ldk.Merkle.sigTypesHi) := by simp only [Ldk.Merkle.sigTypesHi]; omega
+    simp [Ldk.Merkle.isSig, h']
+
+/-- the same for sign(reparse(unsigned invoice bytes)) -/
+theorem reparsed_invoice_signs_to_ascending_stream (b : List UInt8) (rs : List Rec) (sr : Rec)
+    (hparse : parseStream b = some rs) (hasc : rs.Pairwise (fun a b => a.ty < b.ty))
+    (hty : ∀ r ∈ rs, r.ty < INVOICE_TYPES_HI ∨ EXPERIMENTAL_OFFER_TYPES_LO ≤ r.ty)
+    (hsig : Ldk.Merkle.isSig sr = true) :
+    ∃ A B, rs = A ++ B ∧
+      signReparsed invoiceSplitIn b sr.recordBytes = some (recsBytes (A ++ sr :: B)) ∧
+      (A ++ sr :: B).Pairwise (fun a b => a.ty < b.ty) ∧
+      Ldk.Merkle.nonSig (A ++ sr :: B) = rs := by
+  refine signReparsed_general invoiceSplitIn b rs sr hparse hasc
+    (fun r hr => invoice_split_range_is_below_signature r.ty (hty r hr)) (fun r hr => ?_) hsig
+  have h := hty r hr
+  simp only [INVOICE_TYPES_HI, EXPERIMENTAL_OFFER_TYPES_LO] at h
+  rcases h with h | h
+  · have h' : ¬ (Ldk.Merkle.sigTypesLo ≤ r.ty) := by simp only [Ldk.Merkle.sigTypesLo]; omega
+    simp [Ldk.Merkle.isSig, h']
+  · have h' : ¬ (r.ty ≤ Ldk.Merkle.sigTypesHi) := by simp only [Ldk.Merkle.sigTypesHi]; omega
+    simp [Ldk.Merkle.isSig, h']
+
+/-- non-vacuity: payer metadata, payer id 88, PAYER NOTE 89, an experimental record; signature 240 -/
+example : signReparsed invreqSplitIn [0, 1, 5, 88, 1, 3, 89, 1, 66, 0xfe, 0x77, 0x35, 0x94, 0x01, 1, 9] [240, 1, 7]
+    = some [0, 1, 5, 88, 1, 3, 89, 1, 66, 240, 1, 7, 0xfe, 0x77, 0x35, 0x94, 0x01, 1, 9] := by decide
+example : resignVerdict invreqSplitIn [0, 1, 5, 88, 1, 3, 89, 1, 66, 0xfe, 0x77, 0x35, 0x94, 0x01, 1, 9] [240, 1, 7] = "ok" := by decide
+example : signReparsed invoiceSplitIn [88, 1, 3, 89, 1, 66, 176, 1, 4, 0xfe, 0xb2, 0xd0, 0x5e, 0x01, 0] [240, 1, 7]
+    = some [88, 1, 3, 89, 1, 66, 176, 1, 4, 240, 1, 7, 0xfe, 0xb2, 0xd0, 0x5e, 0x01, 0] := by decide
+
+/-- static invoices have no TryFrom for the unsigned type; their write plan (UnsignedStaticInvoice::new +
+    sign, translated) puts the signature between the non-experimental and the experimental writes, and
+    copies the offer's records like an invoice request does -/
+theorem static_invoice_mirrors_offer (src : List UInt8) (rs : List Rec) (o : Own) (out : List UInt8)
+    (hp : parseStream src = some rs) (hasc : rs.Pairwise (fun a b => a.ty < b.ty))
+    (hb : build staticInvoicePlan src o = some out) :
+    (∃ rest, parseStream (src.drop (recsBytes (rangeRecs OFFER_TYPES_LO OFFER_TYPES_HI rs)).length) = some rest ∧
+      out = recsBytes (rangeRecs OFFER_TYPES_LO OFFER_TYPES_HI rs) ++ o.own ++ o.sig ++
+        recsBytes (rangeRecs EXPERIMENTAL_OFFER_TYPES_LO EXPERIMENTAL_OFFER_TYPES_HI rest) ++ o.expOwn) ∧
+    (∀ r ∈ rs, 1 ≤ r.ty → r.ty < 80 → r ∈ rangeRecs OFFER_TYPES_LO OFFER_TYPES_HI rs) := by
+  refine ⟨?_, fun r hr h1 h2 => mem_rangeRecs _ _ rs r hasc hr h1 h2⟩
+  simp only [build, staticInvoicePlan, runPlan, stepSeg, hp, Own.get, List.nil_append, Nat.zero_add] at hb
+  cases hrest : parseStream (src.drop (recsBytes (rangeRecs 1 80 rs)).length) with
+  | none => simp [hrest] at hb
+  | some rest =>
+    simp only [hrest, Option.map_some, Option.some.injEq] at hb
+    exact ⟨rest, hrest, by rw [← hb]; simp [OFFER_TYPES_LO, OFFER_TYPES_HI, EXPERIMENTAL_OFFER_TYPES_LO, EXPERIMENTAL_OFFER_TYPES_HI]⟩
+
+example : build staticInvoicePlan [10, 1, 65, 0xfe, 0x3b, 0x9a, 0xca, 0x01, 1, 9] ⟨[], [176, 1, 3], [], [240, 1, 7]⟩
+    = some [10, 1, 65, 176, 1, 3, 240, 1, 7, 0xfe, 0x3b, 0x9a, 0xca, 0x01, 1, 9] := by decide
 
 /-- the record ranges the hand-written coverage model (Model/OfferMeta.lean: `offerCovered`,
     `invoiceCovered`) uses ARE the range constants of the source (translated by gen_c18_mirror.py) -/
